@@ -1071,7 +1071,15 @@ func (b *Bitmap) writeToUnoptimized(w io.Writer) (n int64, err error) {
 	// Remove empty containers before persisting.
 	//b.removeEmptyContainers()
 
-	containerCount := b.Containers.Size() - b.countEmptyContainers()
+	// Count the containers that will be written. Containers.Size() cannot be
+	// used: a slice-backed collection keeps nil entries for removed containers.
+	containerCount := 0
+	citer, _ := b.Containers.Iterator(0)
+	for citer.Next() {
+		if _, c := citer.Value(); c.N() > 0 {
+			containerCount++
+		}
+	}
 	headerSize := headerBaseSize
 	byte2 := make([]byte, 2)
 	byte4 := make([]byte, 4)
@@ -1091,7 +1099,7 @@ func (b *Bitmap) writeToUnoptimized(w io.Writer) (n int64, err error) {
 
 	// Descriptive header section: encode keys and cardinality.
 	// Key and cardinality are stored interleaved here, 12 bytes per container.
-	citer, _ := b.Containers.Iterator(0)
+	citer, _ = b.Containers.Iterator(0)
 	for citer.Next() {
 		key, c := citer.Value()
 		// Verify container count before writing.
